@@ -616,44 +616,14 @@ def run(cx):
                 raise AnalysisError(f"parse() left the evaluable subset on `{line}` ({place}): {e}")
             r.check(out.kind == "return" or out.value == "ValueError", f"tuple-arity[{label}]/refused-with-ValueError[{place}]", (pm, pf_), f"`{line}` in {place}: parse() raises {out.value}: an internal error instead of a ValueError", sample=f"{label}/{place}")
     # ---- C11-COST ----------------------------------------------------------------------------
-    r = cx.rule("C11-COST", "operators whose cost is unbounded in the size of literal operands (**, <<) are guarded by a magnitude check before being applied at transpile time", floor=2)
-    ab = pm.funcs.get("_eval_const._apply_bin")
-    if ab is None:
-        raise AnalysisError("_eval_const._apply_bin vanished")
-    tbl = [n for n in ast.walk(ab) if isinstance(n, ast.Dict) and n.keys and all(isinstance(k, ast.Attribute) for k in n.keys)]
-    if not tbl:
-        # hoisted to module level: the table the function subscripts with the operator class
-        used = [x.value.id for x in ast.walk(ab) if isinstance(x, ast.Subscript) and isinstance(x.value, ast.Name) and x.value.id in pm.consts and isinstance(pm.consts[x.value.id], ast.Dict)]
-        tbl = [pm.consts[u_] for u_ in used if pm.consts[u_].keys and all(isinstance(k, ast.Attribute) for k in pm.consts[u_].keys)]
-    if not tbl:
-        raise AnalysisError("_apply_bin operator table not found")
-    keys = {k.attr: v for k, v in zip(tbl[0].keys, tbl[0].values)}
-    src_txt = norm(ab)
-    for opname, fn_name in UNBOUNDED_OPS.items():
-        if opname not in keys:
-            r.ok(f"{opname} not folded")
-            continue
-        # a magnitude test that raises, reached whenever the operator is this one: the operator test must be a conjunct
-        # (or a membership test) of the guarding condition, not one side of an `or`
-        from ..flow import split_and
-        guarded = False
-        for n in ast.walk(ab):
-            if isinstance(n, ast.If) and any(isinstance(x, ast.Raise) for x in ast.walk(n)):
-                atoms = [norm(a_) for a_, t_ in split_and(n.test, True) if t_]
-                if any(f"ast.{opname}" in a_ and ("opcls is" in a_ or "opcls in" in a_ or "opcls ==" in a_) for a_ in atoms):
-                    # the magnitude test must come before the operator is applied (a bound on the *result* is too late:
-                    # 7 ** 200000000 has been computed by then)
-                    apps = [c for c in ast.walk(ab) if isinstance(c, ast.Call) and isinstance(c.func, ast.Subscript) and norm(c.func.slice) == "opcls"]
-                    first_app = min([(c.lineno, c.col_offset) for c in apps] or [(10 ** 9, 0)])
-                    if (n.lineno, n.col_offset) < first_app:
-                        guarded = True
-        r.check(guarded, f"_eval_const._apply_bin[{opname}]-unbounded", (pm, keys[opname]), f"ast.{opname} is folded with operator.{fn_name} on unbounded literal operands (e.g. sleep(10**10**8) never returns)")
-
+    r = cx.rule("C11-COST", "operators whose cost is unbounded in the size of literal operands (**, <<) are never applied to operands whose result would be wide: the evaluator is run on powers, shifts and towers (from 5000-bit results to 10**10**8) with recording pow/lshift that estimate the result width before computing", floor=20)
     # no fold hands out an integer wider than the evaluator's own bound: a family of powers and shifts whose results need
     # about 5000 bits must be declined whatever the base (1 << n grows although 1 ** n does not)
     evc_ = pm.func("_eval_const")
     wide = ["1 << 5000", "-1 << 5000", "True << 5000", "2 << 5000", "3 << 4999", "2 ** 5000", "-2 ** 5001", "3 ** 3200", "10 ** 1600", "(1 << 3000) << 3000", "7 ** 1800", "(2 ** 64) ** 80",
             # towers whose every exponent / shift count is small: the intermediate results are what grows
+            # unbounded: the value must never be computed (the recorder below refuses to compute it and reports the application)
+            "10 ** 10 ** 8", "2 ** 10 ** 9", "1 << 10 ** 9", "9 ** 9 ** 9", "7 ** 200000000", "(-3) ** 99999999", "1 << (1 << 40)", "2 ** (2 ** 40)",
             "((9 ** 64) ** 64) ** 64", "(((2 ** 60) ** 60) ** 60) ** 60", "((3 ** 64) ** 64) ** 2", "((1 << 64) ** 64) ** 64", "((5 ** 40) ** 40) << 3", "(2 ** 63) ** 63 ** 2"]
     import operator as _op
     applied = []
